@@ -25,7 +25,7 @@ ASSUMPTIONS = [
     'is_good is replaced by its C13 contract at the call site (modular)',
 ]
 NOT_COVERED = ['multi-column input with return_good=True or a mask in the unbounded proof (single column there, C13 units; bounded stand-in for several columns)',
-               'phase values outside [0, 2pi] (re-wrapping branch) in the unbounded proof (bounded stand-in only)']
+               'phase values outside [0, 2pi] (re-wrapping branch): single column in the unbounded proof (wrap_phase by contract), several columns bounded']
 
 STEP = z3.Real('phase_step')
 N = z3.Int('N')
@@ -48,6 +48,30 @@ def _mk_all(c):
     return (ph,), dict(return_good=False, phase_step=SReal(STEP))
 
 
+def _mk_any(c):
+    """a phase series with NO range assumption: values beyond 2 pi send the routine through its re-wrapping branch"""
+    ph, P = vec('phase', N)
+    for ax in npshim.pi_axioms():
+        c.assume(ax)
+    c.assume(N >= 1)
+    return (ph,), dict(return_good=False, phase_step=SReal(STEP))
+
+
+class _UtilsShim:
+    """emd.utils.wrap_phase by contract: an array of the same shape with values in [0, 2 pi) (that it is congruent to its argument is proved
+    under C09).  The partition clauses are then stated about THAT array - the phase the routine works on."""
+    @staticmethod
+    def wrap_phase(x):
+        c = core.C()
+        Wf = z3.Function('wrapped_phase', I, I, R)
+        i, j = z3.Ints('wi wj')
+        c.assume(z3.ForAll([i, j], z3.And(0 <= Wf(i, j), Wf(i, j) < 2 * PI), patterns=[Wf(i, j)]))
+        c.oblige('wrap_phase:called-on-the-whole-phase-array', z3.BoolVal(x.ndim == 2) if hasattr(x, 'ndim') else z3.BoolVal(False), 'pre')
+        r = SArr(x.shape_e, lambda a, b: Wf(a, b), 'f')
+        c.ghost['effective_phase'] = r[:, 0]
+        return r
+
+
 def _B(e, k):
     return e.inds[k]
 
@@ -67,7 +91,7 @@ _inner_all = [
 
 
 def _post_all(c, args, kw, ret):
-    ph = args[0]
+    ph = c.ghost.get('effective_phase', args[0])        # (the re-wrapped phase when the routine wrapped it)
     n = ph.shape[0]
     step = kw['phase_step']
     c.oblige('post:shape', z3.And(ret.shape_e[0] == N, ret.shape_e[1] == 1), 'post')
@@ -187,7 +211,9 @@ def units(tier):
              observables=[{'kind': 'scalar', 'name': 'N'}, {'kind': 'scalar', 'name': 'phase_step'},
                           {'kind': 'array', 'name': 'phase', 'shape': ['N']}])
     u.bound_scalars = [('N', 1)]
-    return [u, multi_unit()]
+    u2 = Unit('get_cycle_vector[all-cycles,any phase range]', 'emd/cycles.py', 'get_cycle_vector', _mk_any, _post_all,
+              loops={1: {'inv': _inner_all}}, module=EC, ns={'utils': _UtilsShim})
+    return [u, u2, multi_unit()]
 
 
 def model_witness(unit_name, model):
